@@ -60,6 +60,11 @@ func (ps *PartitionSet) AddRange(partName, modelName string, start, end, modulo 
 			return
 		}
 		ps.partitions[i] = partitionIndex
+		// Next site would be after "end": we stop here
+		// (also avoids an integer overflow of i with a huge modulo)
+		if modulo > end-i {
+			break
+		}
 	}
 	return
 }
